@@ -105,6 +105,34 @@ def main():
                     res.fail(f"corr:{name}:kraus", f"Kraus operators differ from the extracted definition at {vals}",
                              {"factory": name, "args": vals})
     res.sample({"factory": "ResetNoise", "valid": fam["ResetNoise"]["valid"], "kraus0": fam["ResetNoise"]["kraus"][0]})
+    # probabilistic mixtures / Kraus noise on 1..3 qubits: the stored mixture must be a probability vector over
+    # unitaries of ONE dimension 2^n (incl. the implicit identity component), Kraus sets must be returned unchanged
+    import random
+    rng = random.Random(a.seed + 91)
+    npr = np.random.default_rng(a.seed + 92)
+    for _ in range(40 if a.tier == "quick" else 400):
+        n = rng.randint(1, 3)
+        k = rng.randint(1, 3)
+        us = [np.real_if_close(O.random_unitary(npr, 2 ** n)) for _ in range(k)]
+        # real orthogonal matrices keep entries real (the instruction stores real numbers)
+        us = [np.linalg.qr(npr.normal(size=(2 ** n, 2 ** n)))[0] for _ in range(k)]
+        total = rng.choice([1.0, 0.9, 0.5, 0.25, 0.0])
+        w = npr.dirichlet(np.ones(k)) * total
+        w = [float(x) for x in w]
+        res.count(("prob", n, k, total), bucket="ProbabilisticNoise")
+        try:
+            inst = N.ProbabilisticNoise([u.tolist() for u in us], w, qubit_indices=list(range(n)))
+        except ValueError as ex:
+            res.fail("corr:ProbabilisticNoise:valid_rejected", f"valid mixture rejected: {ex}", {"n": n, "weights": w})
+            continue
+        pl = list(inst.prob_list)
+        ms = [np.array(m, dtype=float) for m in inst.gate_matrices]
+        dims = {m.shape for m in ms}
+        ok = (len(pl) == len(ms) and all(x >= -1e-15 for x in pl) and abs(sum(pl) - 1.0) < 1e-9
+              and dims == {(2 ** n, 2 ** n)} and all(np.allclose(m @ m.T, np.eye(2 ** n), atol=1e-9) for m in ms))
+        if not ok:
+            res.fail("corr:ProbabilisticNoise:mixture", f"stored mixture is not a probability vector over 2^n-dimensional "
+                     f"unitaries: weights {pl}, shapes {sorted(dims)}", {"n": n, "weights": w})
     res.emit()
 
 
